@@ -45,8 +45,14 @@ def scenarios(tier):
                  note="patterns that match the empty parameter string (blank pattern field, optional keyword)"),
         Scenario("c14-arcs", World, dict(base, regions=["R"]),
                  [("TRAVEL", "O1"), ("TRAVEL", "O2"), ("TRAVEL", "I1"), ("ARC", "clear"), ("ARC", "under"), ("ARC", "into"),
-                  ("XONLY", "I1"), ("YONLY", "I1"), ("AT", "ExcludeRegion", "disable"), ("AT", "ExcludeRegion", "enable")],
+                  ("XONLY", "I1"), ("YONLY", "I1"), ("AT", "ExcludeRegion", "disable"), ("AT", "ExcludeRegion", "enable"),
+                  ("TRACKPROBE",)],
                  max_states=150000 if q else 3000000, note="arcs executed while disabled must keep the position tracked"),
+        Scenario("c14-two-prints", World, dict(base, regions=["R"]),
+                 [("TRAVEL", "I1"), ("TRAVEL", "O2"), ("XONLY", "I1"), ("AT", "ExcludeRegion", "disable"),
+                  ("AT", "ExcludeRegion", "enable"), ("EV", "PRINT_DONE"), ("NEWPRINT",)],
+                 max_states=150000 if q else 3000000,
+                 note="the same @-commands in consecutive prints (every print starts enabled)"),
         Scenario("c14-relative", World, dict(base, regions=["R"], guard=no_relative_disable),
                  REL_MENU, max_depth=10 if q else 14, max_states=3000000,
                  note="relative moves after re-enabling; disable is not issued inside an episode while in G91 (D17)"),
@@ -56,7 +62,7 @@ def scenarios(tier):
 
 
 REL_MENU = [("TRAVEL", "O2"), ("TRAVEL", "I1"), ("TRAVEL", "O1"), ("XONLY", "I1"), ("REL",), ("ABS",),
-            ("AT", "ExcludeRegion", "disable"), ("AT", "ExcludeRegion", "enable")]
+            ("AT", "ExcludeRegion", "disable"), ("AT", "ExcludeRegion", "enable"), ("TRACKPROBE",)]
 
 
 @findings.predicate("D17")
